@@ -99,7 +99,7 @@ RULES = [
 
 def rule_mustpass(ctx):
     from . import mustpass
-    mustpass.check(ctx, ['recv-runs-handler'])
+    mustpass.check(ctx, ['recv-runs-handler', 'wakers-wake', 'wake-updates-state'])
 
 
 RULES.append(("C05.e", "must-pass-through: no path around the effects this property rests on (added fast paths / early returns)", rule_mustpass))
@@ -107,7 +107,7 @@ RULES.append(("C05.e", "must-pass-through: no path around the effects this prope
 
 def rule_commit(ctx):
     from . import mustpass
-    for g, floor in [('pool', 40)]:
+    for g, floor in [('pool', 40), ('task-wake', 10)]:
         mustpass.commit_group(ctx, g, floor)
 
 
